@@ -60,7 +60,7 @@ Proof. eexists _, _. split; vm_compute; reflexivity. Qed.
    writer has completed a publication and is not inside another one, the reader's next call
    returns that publication (exception as in C03: live generation = cached generation).
    Clause (a) is C02_RA + C03_monotone_RA, whose schedules contain the same tokens. *)
-From CB Require Import SeqlockInv SeqlockRA SeqlockFresh.
+From CB Require Import SeqlockInv SeqlockRA SeqlockFresh SeqlockInflight.
 Open Scope Z_scope.
 
 Section General.
@@ -83,7 +83,46 @@ Theorem C04_never_emptied_under_clients : forall c ts m o, safe_cfg c = true -> 
   m_run (m_init c) ts = (m, o) -> m_rs m <> [] -> header_valid (w_log (m_w m)) = true.
 Proof. intros c ts m o Hs Hts R. exact (F_valid _ _ (m_run_F c Hs ts (m_init c) m o (MInvF_init c) Hts R)). Qed.
 
+(* clause (a), the update left open: while the generation is odd - an update begun and not completed, or
+   abandoned for good by a daemon that died inside it, whatever has been restarted over the segment since
+   (the restart leaves the generation as it is: C04_takeover_in_place) - a call of an attached client
+   returns after its two header loads with the record the client held; nothing half-written is handed
+   out and nobody waits for the daemon.  [ts] is any schedule with crashes and restarts at any access. *)
+Theorem C04_open_update_serves_the_held_record : forall c ts m o j r q e, safe_cfg c = true ->
+  Forall real_token ts -> m_run (m_init c) ts = (m, o) ->
+  nth_error (m_rs m) j = Some r -> r_pc r = RIdle ->
+  latest LGen (w_log (m_w m)) = Some q -> ev (w_log (m_w m)) q = Some e -> (Z.odd (e_val e) = true \/ e_val e = 0) ->
+  exists k m' pre r', (k <= 2)%nat /\
+    m_run m (repeat (TR j None) k) = (m', pre ++ [ORet j RetCache (r_cache r)]) /\ Forall is_access pre /\
+    nth_error (m_rs m') j = Some r' /\ r_pc r' = RIdle /\ r_cache r' = r_cache r /\ r_cache_gen r' = r_cache_gen r /\
+    m_w m' = m_w m.
+Proof. exact inflight_machine. Qed.
+
+(* ... and a client that attaches meanwhile holds the empty record (all zeros: status Unknown) and is
+   served that: the half-written record in the segment - e.g. the start-up record of a restarted daemon
+   written halfway over the last record of the instance before - is never handed out *)
+Theorem C04_attaching_during_an_open_update_gets_the_empty_record : forall c ts m o q e, safe_cfg c = true ->
+  Forall real_token ts -> m_run (m_init c) ts = (m, o) -> header_valid (w_log (m_w m)) = true ->
+  latest LGen (w_log (m_w m)) = Some q -> ev (w_log (m_w m)) q = Some e -> (Z.odd (e_val e) = true \/ e_val e = 0) ->
+  exists k m' pre, (k <= 2)%nat /\
+    m_run m (TNewReader :: repeat (TR (length (m_rs m)) None) k) =
+      (m', pre ++ [ORet (length (m_rs m)) RetCache (repeat 0 (c_cells c))]) /\
+    Forall is_access pre /\ m_w m' = m_w m.
+Proof. exact attach_inflight_machine. Qed.
+
 End General.
+
+(* the hypotheses are met: the daemon dies six accesses into its second update, another one is started over
+   the segment; the generation is 3; the attached client is served publication 1, a new one the empty record *)
+Example C04_example_open_update :
+  let ts := repeat TW 11 ++ [TNewReader] ++ repeat (TR 0 None) 11 ++ repeat TW 6 ++ [TCrash; TRestart] in
+  exists m o q e, m_run (m_init fixed_cfg) ts = (m, o) /\
+    latest LGen (w_log (m_w m)) = Some q /\ ev (w_log (m_w m)) q = Some e /\ e_val e = 3 /\
+    header_valid (w_log (m_w m)) = true /\
+    snd (m_run m ([TR 0 None; TR 0 None; TNewReader; TR 1 None; TR 1 None])) =
+      [OAccess 1 (mkti ALoad LVer (c_r_ver fixed_cfg) 1); OAccess 1 (mkti ALoad LGen (c_r_g1 fixed_cfg) 3); ORet 0 RetCache (rec_of 7 1);
+       OAccess 2 (mkti ALoad LVer (c_r_ver fixed_cfg) 1); OAccess 2 (mkti ALoad LGen (c_r_g1 fixed_cfg) 3); ORet 1 RetCache (repeat 0 7)].
+Proof. eexists _, _, _, _. split; [vm_compute; reflexivity|]. repeat (split; [vm_compute; reflexivity|]). vm_compute. reflexivity. Qed.
 
 (* ---------------------------------------------------------------------------------------------
    Death while the segment file is being (re-)created: ShmWriter::wipe truncates the file and
